@@ -341,6 +341,8 @@ structure LoopSt (ρ : Type) where
   od0 : Nat := 0  -- `odone0`
   nsw : Nat := 0  -- ghost: stage switches taken
   nmis : Nat := 0 -- ghost: chunks in which the two cross-faded streams produced different amounts
+  nneg : Nat := 0 -- ghost: chunks that ended with a negative `step` or clock (the read position runs backwards)
+  nshl : Nat := 0 -- ghost: stage switches that left-shift a negative value (undefined behaviour in C: F14)
 
 /-- does this chunk switch stages?  (`stage_dif` and `n < p->num_stages`) -/
 def doesSwitch (s : St ρ) : Bool := decide (stageDif s ≠ 0 ∧ s.cur.sn + stageDif s < s.ns)
@@ -353,11 +355,22 @@ def chunkMx (l : LoopSt ρ) (dif : Int) (fits : Bool) : Int :=
   let mx1 := if dif = 1 then l.mx + 1 else l.mx
   if dif ≠ 0 ∧ fits = false then mx1 - 1 else mx1
 
+/-- a stream whose `step` or clock has gone negative reads backwards, eventually before its FIFO (only reachable
+    through F13: a stale `step_step` applied to a much smaller `step`) -/
+def backwards (s : St ρ) : Bool :=
+  decide (s.cur.step < 0 ∨ s.cur.clk < 0 ∨ (s.fade ≠ 0 ∧ (s.fo.step < 0 ∨ s.fo.clk < 0)))
+
+/-- would the stage switch `dif` from state `s` apply `x << by` to a negative `x` (lines 504–507)? -/
+def negLeftShift (s : St ρ) (dif : Int) : Bool :=
+  let sh : Int := -dif + (b2i s.cur.isD - b2i (decide (s.cur.sn + dif ≥ 0)))
+  decide ((-dif > 0 ∧ s.cur.clk < 0) ∨ (sh > 0 ∧ (s.cur.step < 0 ∨ s.cur.ss < 0)))
+
 /-- lines 553–555 and the loop-carried locals after a chunk -/
-def chunkFinish (l : LoopSt ρ) (sw : Bool) (k : KRes ρ) : LoopSt ρ :=
+def chunkFinish (l : LoopSt ρ) (sw shl : Bool) (k : KRes ρ) : LoopSt ρ :=
   { st := if k.st.slew ≠ 0 then { k.st with slew := k.st.slew - k.od } else k.st,
     mn := k.mn, mx := k.mx, od0 := l.od0 + k.od,
-    nsw := l.nsw + (if sw then 1 else 0), nmis := l.nmis + (if k.mis then 1 else 0) }
+    nsw := l.nsw + (if sw then 1 else 0), nmis := l.nmis + (if k.mis then 1 else 0),
+    nneg := l.nneg + (if backwards k.st then 1 else 0), nshl := l.nshl + (if shl then 1 else 0) }
 
 /-- one iteration of `while (odone0 < olen0)`; the flag says whether the loop goes on (`odone == olen`). -/
 def chunk (cfg : Cfg ρ) (occ0 : Int) (olen0 : Nat) (l : LoopSt ρ) : LoopSt ρ × Bool :=
@@ -366,7 +379,7 @@ def chunk (cfg : Cfg ρ) (occ0 : Int) (olen0 : Nat) (l : LoopSt ρ) : LoopSt ρ 
   let sw := doesSwitch a.1
   let s := if sw then switchStage a.1 dif occ0 else a.1
   let k := kernels s a.2 (chunkMn l dif) (chunkMx l dif (decide (a.1.cur.sn + dif < a.1.ns)))
-  (chunkFinish l sw k, decide ((k.od : Int) = k.olen))
+  (chunkFinish l sw (sw && negLeftShift a.1 dif) k, decide ((k.od : Int) = k.olen))
 
 /-- the `while` loop; every continuing chunk delivers at least one frame, so `olen0 + 1` units of fuel suffice. -/
 def loop (cfg : Cfg ρ) (occ0 : Int) (olen0 : Nat) : Nat → LoopSt ρ → LoopSt ρ
@@ -414,28 +427,38 @@ structure PRes (ρ : Type) where
   od : Nat      -- frames produced (return value)
   nsw : Nat
   nmis : Nat
+  nneg : Nat
+  nshl : Nat
+
+/-- line 430: the first `vr_process` sets the ratio given at creation, if none has been set since. -/
+def applyDefault (cfg : Cfg ρ) (s : St ρ) : St ρ :=
+  match s.defR with
+  | some r => setIoRatio cfg s r 0
+  | none => s
+
+/-- lines 447–453: how much input both streams may use (`len`), in samples of their stages. -/
+def setLens (s : St ρ) (occ0 : Int) : St ρ :=
+  let s := { s with cur := { s.cur with len := shiftr occ0 s.cur.sn } }
+  if s.fade ≠ 0 then { s with fo := { s.fo with len := shiftr occ0 s.fo.sn } } else s
 
 /-- lines 430–453: everything `vr_process` does before its `while` loop. -/
 def preLoop (cfg : Cfg ρ) (s : St ρ) (olen0 : Nat) : LoopSt ρ × Int :=
-  let s := match s.defR with
-    | some r => setIoRatio cfg s r 0
-    | none => s
+  let s := applyDefault cfg s
   let s := { s with oocc := s.oocc + olen0 }
-  let mn0 := s.cur.sn
-  let (mn, mx) := if s.fade ≠ 0 then (min mn0 s.fo.sn, max mn0 s.fo.sn) else (mn0, mn0)
+  let mn := if s.fade ≠ 0 then min s.cur.sn s.fo.sn else s.cur.sn
+  let mx := if s.fade ≠ 0 then max s.cur.sn s.fo.sn else s.cur.sn
   let s := inputStages s mn (intRange (min mn 0) mx)
   let s := if s.fl > 0 then { s with fl := -1 } else s
   let occ0 := shiftl (max 0 ((s.stg mx).occ - 4 * H2)) mx
-  let s := { s with cur := { s.cur with len := shiftr occ0 s.cur.sn } }
-  let s := if s.fade ≠ 0 then { s with fo := { s.fo with len := shiftr occ0 s.fo.sn } } else s
-  ({ st := s, mn := mn, mx := mx }, occ0)
+  ({ st := setLens s occ0, mn := mn, mx := mx }, occ0)
 
 /-- `vr_process` -/
 def process (cfg : Cfg ρ) (s : St ρ) (olen0 : Nat) : PRes ρ :=
   let p := preLoop cfg s olen0
   let l := loop cfg p.2 olen0 (olen0 + 1) p.1
   let s := post l.st l.mn l.mx
-  { st := { s with oocc := s.oocc - ((olen0 : Int) - l.od0) }, od := l.od0, nsw := l.nsw, nmis := l.nmis }
+  { st := { s with oocc := s.oocc - ((olen0 : Int) - l.od0) }, od := l.od0, nsw := l.nsw, nmis := l.nmis, nneg := l.nneg,
+    nshl := l.nshl }
 
 /-- `vr_input` -/
 def input (s : St ρ) (n : Nat) : St ρ :=
@@ -472,15 +495,19 @@ structure Run (ρ : Type) where
   out : Nat := 0     -- frames produced by `vr_process` over the sequence
   nsw : Nat := 0
   nmis : Nat := 0
+  nneg : Nat := 0
+  nshl : Nat := 0
 
 def stepOp (cfg : Cfg ρ) (r : Run ρ) : Op ρ → Run ρ
   | .ratio x slew => { r with st := setIoRatio cfg r.st x slew }
   | .proc ilen olen =>
     let p := process cfg (input r.st ilen) olen
-    { st := (output p.st olen).1, out := r.out + p.od, nsw := r.nsw + p.nsw, nmis := r.nmis + p.nmis }
+    { st := (output p.st olen).1, out := r.out + p.od, nsw := r.nsw + p.nsw, nmis := r.nmis + p.nmis,
+      nneg := r.nneg + p.nneg, nshl := r.nshl + p.nshl }
   | .flush olen =>
     let p := process cfg (flush r.st) olen
-    { st := (output p.st olen).1, out := r.out + p.od, nsw := r.nsw + p.nsw, nmis := r.nmis + p.nmis }
+    { st := (output p.st olen).1, out := r.out + p.od, nsw := r.nsw + p.nsw, nmis := r.nmis + p.nmis,
+      nneg := r.nneg + p.nneg, nshl := r.nshl + p.nshl }
 
 def run (cfg : Cfg ρ) (r : Run ρ) (ops : List (Op ρ)) : Run ρ := ops.foldl (stepOp cfg) r
 
